@@ -86,7 +86,11 @@ var tagShapes = []string{"#work", "#Work", "#WORK", "#home-office", "#under_scor
 	// tags may appear anywhere within a summary: glued to punctuation or to other text
 	"(#work,", "(#t1)", "pairing/#t2", "#t1,#t2", "[#dup=v]", "issue#12", "#gym#sauna", "über#t3", "«#work»", "x:#a=1;", "\"#t2\"", "—#ticket=891",
 	// letters whose UTF-8 encoding contains a byte that is a control code of its own in 8-bit terminals (0x9B CSI, 0x9D OSC, 0x90 DCS, 0x85 NEL)
-	"#śniadanie", "#město=\"Plzeň\"", "#Лето", "#ŝanĝo=ĝusta", "#Őr=ą", "#țară"}
+	"#śniadanie", "#město=\"Plzeň\"", "#Лето", "#ŝanĝo=ĝusta", "#Őr=ą", "#țară",
+	// title-case letters (neither upper nor lower case) next to their lower- and upper-case spellings; names that differ in leading zeros only;
+	// quoted values made of letters and digits of other scripts (decimal digits that are not ASCII digits)
+	"#ǅungla", "#ǆungla", "#ǄUNGLA=x", "#ǈeto", "#sprint07=a", "#sprint7=b", "#sprint07", "#sprint7", "#room-01=x", "#room-1=y",
+	"#ticket=\"１２３\"", "#room=\"٣٠٤\"", "#ref=\"A-४२_b\"", "#v='v２'"}
 
 // word returns one summary word according to the options.
 func word(r *core.Rand, o *Opts, out *Out) string {
